@@ -119,6 +119,9 @@ def configs(draw, max_schemes=5, cats=True, catchall=True, extras=False):
                     dep = dep[:-1]
                 if dep:
                     cfg[f"{cat}__context__deprecated"] = dep
+            if k == 3 and draw(st.integers(0, 5)) == 0 and f"{cat}__context__default" in cfg:
+                # inconsistent on purpose (the documented rules refuse it): the category's own default is deprecated for that category
+                cfg[f"{cat}__context__deprecated"] = [cfg[f"{cat}__context__default"]]
     return repair_costs(cfg)
 
 
